@@ -48,6 +48,7 @@ package ice
 //@   site call createConn#1 assert a-provisional-connection-is-created-only-for-a-ufrag-nobody-registered: !foundPC
 //@   site call createConn#1 ghost createdPC := result1 == nil
 //@   site call AddConn#1 assert attaches-only-to-a-packet-connection-that-was-found-or-created: foundPC || createdPC
+//@   site call AddConn#1 assert the-first-message-is-handed-over-in-memory-of-its-own-which-no-later-connection-writes-into: arg2 == buf && fresh(buf)
 //@   site call AddConn#1 ghost offered := true
 //@   ensures an-open-mux-waits-for-the-first-frame-of-every-accepted-connection: !closedAtTop ==> readTried
 //@   ensures a-connection-whose-packet-connection-exists-is-offered-to-it: foundPC || createdPC ==> offered
